@@ -16,8 +16,8 @@
   validated on every run by the binary-level streams (exit status compared per case).
 -/
 import SyModel.Generated.Code.MainExit
-import SyModel.Props.C15
-import SyModel.Props.C10
+import SyModel.Engine.Verify
+import SyModel.Engine.Model
 namespace SyModel.Props.GenMainExit
 open SyModel SyModel.Engine SyModel.Generated SyModel.Generated.MainExit
 
